@@ -8,7 +8,8 @@ RULE = ("all N! permutations for N<=4 (quick) / N<=5 (thorough) on p=23 and 2039
         "permutations for N in {1,2,3,8,(32,100)} at 16/62 bits and N<=2 at 2048 bits, labels empty/short/long, generator "
         "seeds empty/short/long, repeated ciphertexts and identity components; generators, shuffle outputs, proof bytes "
         "(same RNG draws) and the verifier's decision are compared with the Gallina model; verification also runs in a "
-        "fresh process on re-serialised data")
+        "fresh process on re-serialised data; large shuffles N in {513,700,1025} (thorough: up to 4097) and ristretto N=520 on the "
+        "implementation (sizes crossing power-of-two / batch boundaries)")
 
 
 def run(env):
@@ -45,9 +46,23 @@ def run(env):
         if o is not True:
             env.violation("honest proof rejected in a fresh process on %s" % sp["ctx"], {"kind": "battery", "case": c, "out": o})
     fails = env.tie(items, "C03", shard=60)
+    # large shuffles (sizes that cross power-of-two / batch boundaries): implementation-side completeness,
+    # one of them also tied to the model
+    big_specs = []
+    sizes = [(513, "B:2039"), (1025, "M:2039"), (700, "B:65267")] if env.quick else \
+            [(257, "B:2039"), (513, "B:2039"), (513, "M:65267"), (1025, "M:2039"), (2049, "B:2039"), (4097, "M:2039"), (1500, "B:%d" % P62)]
+    for n, ctx in sizes:
+        big_specs.append({"ctx": ctx, "n": n, "perm": None, "seed": "x:62", "label": "x:" + r.randbytes(3).hex(), "dup": n % 2 == 0})
+    big_items = shuf.make_statements(env, big_specs)
+    big_live = shuf.prove(env, big_specs, big_items)
+    bc = [shuf.check_case(sp, tag="check-largeN") for sp in big_live]
+    for sp, c, o in zip(big_live, bc, env.harness(bc)):
+        if o is not True:
+            env.violation("honest shuffle proof rejected on %s, N=%d (library-drawn permutation): %s" % (sp["ctx"], sp["n"], o),
+                          {"kind": "battery", "case": {"ctx": sp["ctx"], "n": sp["n"], "label": sp["label"]}, "out": o})
     # ristretto: prove and verify on the implementation
     rspecs = []
-    for n in ([1, 2, 5] if env.quick else [1, 2, 3, 10, 50]):
+    for n in ([1, 2, 5, 520] if env.quick else [1, 2, 3, 10, 50, 260, 520, 1030]):
         rspecs.append(n)
     rc = [{"ctx": "R", "op": "generators", "args": [str(n + 1), "x:"], "tag": "ristretto"} for n in rspecs]
     gens = env.harness(rc)
